@@ -719,18 +719,8 @@ R.mutant("benign-find-cycles-identity-test", TOPO,
          sub("    for parent, child in tuples:\n        edges[parent].add(child)\n    nodes_to_test = set(edges)\n",
              "    if tuples is None:\n        return set()\n    for parent, child in tuples:\n        edges[parent].add(child)\n    nodes_to_test = set(edges)\n"), None)
 # R5
-def _sort_ignores_pairs(src: str) -> str:
-    from ..report import MutantNotApplicable
-    edits = [("    for parent, child in tuples:\n        edges[child].add(parent)\n", "    for parent, child in ():\n        edges[child].add(parent)\n"),
-             ("                find_cycles(tuples, allitems),\n", "                find_cycles(_gen_edges(edges), allitems),\n")]
-    for old, new in edits:
-        if src.count(old) != 1:
-            raise MutantNotApplicable("anchor text not found")
-        src = src.replace(old, new)
-    return src
-
-
-R.mutant("sort-as-subsets-ignores-dependency-pairs", TOPO, _sort_ignores_pairs, "C19-R5")
+R.mutant("sort-ignores-dependency-pairs", TOPO,
+         sub("    for set_ in sort_as_subsets(tuples, allitems):\n", "    for set_ in sort_as_subsets((), allitems):\n"), "C19-R5")
 R.mutant("sort-ignores-items", TOPO,
          sub("    for set_ in sort_as_subsets(tuples, allitems):\n", "    for set_ in sort_as_subsets(tuples, [x for pair in tuples for x in pair]):\n"), "C19-R5")
 R.mutant("benign-find-cycles-docstring", TOPO,
